@@ -764,6 +764,15 @@ def run(res, tier, seed):
         "translator tools/gen_grammar.py: PrepareCustomDice -> PCustomP, ConsumeCustomDice -> ACustomConsume, CommitCustomDice -> AEmit typeCustomDice",
         "`used by copy` means the VMValue cell is copied (Clone is shallow): an array returned by a handler shares its element storage like every array value",
     ]
+    # a stream parser that reports only "matched": same handler arguments, value and process text as the equivalent regular expression
+    bare, _ = common.run_harness(["c17-bare"], timeout=120)
+    res.cov["bare_stream_parser_vs_regex"] = {"programs": len(bare), "disagreements": sum(1 for r in bare if r["stream"] != r["regex"])}
+    for r in bare:
+        if r["stream"] != r["regex"]:
+            res.violation({"what": "a custom dice registered as a stream parser that reports only `Matched` behaves differently from the equivalent regular "
+                                   "expression (the handler must receive the matched text as groups[0]; the process text shows it)",
+                           "input": r["src"], "stream_parser": r["stream"], "regular_expression": r["regex"]})
+            break
     if KEY_ORDER in known:
         res.known(known[KEY_ORDER]["what"] + f" [programs skipped for this reason in this run: {skipped + distB['skipped_map_order_nondeterminism']}]")
     if KEY_LA in known and la_hits:
